@@ -359,8 +359,8 @@ def r6_time_search(cx):
     md = [a for a in walk_body(fn.body) if isinstance(a, ast.Assign) and U(a.targets[0]) == "match"]
     ok = len(md) == 1 and U(md[0].value) == "time_re.search(line)"
     if ok:
-        g = set((U(e), p, o) for e, p, o in guards_ex(md[0], stop=enclosing(md[0], ast.For)))
-        ok = g <= set([("s and (not search_by_expression(line))", False, "exit-jump"), ("s", False, "exit-jump"), ("search_by_expression(line)", True, "exit-jump")])
+        g = set((U(e), p) for e, p, o in guards_ex(md[0], stop=enclosing(md[0], ast.For)))
+        ok = g <= set([("s and (not search_by_expression(line))", False), ("s", False), ("search_by_expression(line)", True), ("s and not search_by_expression(line)", False)])
     cx.require(ok, md[0] if md else fn, "every line (that passes the keyword filter) is searched for a time stamp - the decision never depends on whether lines are currently being included",
                construct=short(md[0]) if md else "(no match = time_re.search(line))")
     init = [a for a in walk_body(fn.body) if isinstance(a, ast.Assign) and U(a.targets[0]) == "including_lines" and enclosing(a, ast.For) is None]
